@@ -24,7 +24,7 @@ from .. import ctx, pump
 from ..callgraph import CallGraph
 from ..flow import ExcHierarchy
 from ..ledger import Site, caught_locally, collect_sites, enclosing_handlers
-from ..project import AnalysisError, call_name, kwarg, norm, walk_no_nested
+from ..project import AnalysisError, call_name, kwarg, norm, walk_no_nested, order
 from ..roles import MarshalRoles
 from ..specialise import Specialiser, render
 from ..specmodel import ANY, ClassV, ListT
@@ -144,6 +144,15 @@ class Ledger:
         cls = callee.qual.split(".")[0]
         recv = norm(call.func.value)
         LISTS = {"size_constraints", "other_size_constraints", "all_size_constraints"}
+        if isinstance(call.func.value, ast.Name):
+            # a local that is only ever bound to a freshly built SizeConstraintList / SizeConstraint is of that class
+            defs = [a.value for a in walk_no_nested(caller.node) if isinstance(a, ast.Assign) and len(a.targets) == 1
+                    and isinstance(a.targets[0], ast.Name) and a.targets[0].id == recv]
+            params = {a.arg for a in ast.walk(caller.node.args) if isinstance(a, ast.arg)}
+            if defs and recv not in params and all(isinstance(d, ast.Call) and call_name(d) in ("SizeConstraintList", "SizeConstraint") for d in defs):
+                kinds = {call_name(d) for d in defs}
+                if len(kinds) == 1:
+                    return kinds.pop() == cls
         if cls == "SizeConstraint" and recv in LISTS:
             return False  # R4: these names always hold a SizeConstraintList
         if cls == "SizeConstraintList" and recv not in LISTS and recv != "self":
@@ -333,7 +342,7 @@ class Ledger:
             fn = fn._parent
         out = []
         for st in fn.body:
-            if st.lineno >= node.lineno:
+            if order(st) >= order(node):
                 break
             if isinstance(st, ast.If) and any(isinstance(x, ast.Return) for x in st.body):
                 out.append((st.test, True))
